@@ -385,6 +385,9 @@ def check_C05(ctx):
     ctx.validate(ctx.run_cases(gen), chunk=150, timeout=3000)     # (values of up to 60 kB: small chunks for the JSON reader)
     gen2 = ctx.gen("scanbytes", 300 if ctx.quick else 20000)
     ctx.validate(ctx.run_cases(gen2), module="TraceC05", nontrivial_key=lambda o: o["text"], chunk=500, timeout=3000)
+    # string values handed to the command-line tool (--env NAME=VALUE) and printed by it: emitted exactly
+    build_cli(ctx)
+    validate_sessions(ctx, [ctx.run_cases(ctx.gen("clisession", 6 if ctx.quick else 60), deadline=120)])
     ctx.exhaustive = False
     return finish(ctx, rule="MC_C05: the scanner as a state machine over every source of <= L symbols of a delimiter-rich "
                             "alphabet %s (partition/line invariants in every scanner state), each source tokenised by "
